@@ -927,6 +927,12 @@ func (c *Conn) advanceFrame() (int, error) {
 
 	if frameType == continuationFrame || frameType == TextMessage || frameType == BinaryMessage {
 
+		if frameType != continuationFrame {
+			// A new message starts here. Continuation frames of a previous
+			// message that the application did not read to the end were
+			// skipped above and do not count against this message.
+			c.readLength = 0
+		}
 		c.readLength += c.readRemaining
 		// Don't allow readLength to overflow in the presence of a large readRemaining
 		// counter.
